@@ -11,7 +11,7 @@ From Coq Require Import Reals List Bool Lra.
 From Verif Require Import Scalar RInst.
 From Verif.Gen Require Import C20Stereo.
 From Verif.Model Require Import C20Proj C20Pdf.
-From Verif.Proofs Require Import C20Atan2 C20ProjProofs C20PdfProofs.
+From Verif.Proofs Require Import C20Atan2 C20ProjProofs C20PdfProofs C20ConvProofs.
 Import ListNotations.
 Local Open Scope R_scope.
 
@@ -248,3 +248,91 @@ Theorem C20_mrd_nonneg : forall mask vals, Forall (fun x => 0 <= x) vals -> (0 <
   msum ROps mask vals <> 0 -> Forall (fun x => 0 <= x) (mrd ROps mask vals).
 Proof. exact mrd_nonneg. Qed.
 Print Assumptions C20_mrd_nonneg.
+
+(* ------------------------------------------------------------- smoothing *)
+(* scipy.ndimage correlate1d with "wrap": total kept for ANY kernel of sum 1;
+   with "reflect": total kept for a SYMMETRIC kernel of sum 1; any line length *)
+Theorem C20_wrap_total : forall w x, (0 < length x)%nat ->
+  sumT ROps (corr1 ROps ext_wrap w x) = sumT ROps w * sumT ROps x.
+Proof. exact corr1_wrap_total. Qed.
+Print Assumptions C20_wrap_total.
+
+Theorem C20_reflect_total : forall w r x, sym_kernel w r -> (0 < length x)%nat ->
+  sumT ROps (corr1 ROps ext_reflect w x) = sumT ROps w * sumT ROps x.
+Proof. exact corr1_reflect_total. Qed.
+Print Assumptions C20_reflect_total.
+
+(* gaussian_filter(hist, s, mode=("wrap", "reflect")) keeps shape, total and sign *)
+Theorem C20_smoothing_total : forall w nr nc m, kernel_ok w -> (0 < nr)%nat -> (0 < nc)%nat ->
+  rect nr nc m ->
+  rect nr nc (gauss2d ROps w nr nc m) /\ sum2 ROps (gauss2d ROps w nr nc m) = sum2 ROps m.
+Proof. exact gauss2d_total. Qed.
+Print Assumptions C20_smoothing_total.
+
+Theorem C20_smoothing_nonneg : forall w nr nc m, Forall (fun v => 0 <= v) w -> nonneg2 m ->
+  nonneg2 (gauss2d ROps w nr nc m).
+Proof. exact gauss2d_nonneg. Qed.
+Print Assumptions C20_smoothing_nonneg.
+
+Example C20_kernel_nonvacuous : kernel_ok [1 / 4; 1 / 2; 1 / 4].
+Proof.
+  split; [exists 1%nat; split; [reflexivity |] | split].
+  - intros [| [| [| k]]] H; simpl; try reflexivity. simpl in H. exfalso. apply (Nat.nle_succ_0 k).
+    do 2 apply le_S_n. exact H.
+  - simpl. rsimpl. unfold zero. rsimpl. lra.
+  - repeat constructor; lra.
+Qed.
+
+(* ------------------------------------------------------ whole pipeline *)
+(* symmetry=None, mrd=False: the smoothed histogram sums to the total weight of
+   the samples in the grid, has (#azimuth bins x #polar bins) entries and is
+   non-negative for non-negative weights; weights of any sign, any number of
+   vectors, any resolution (edge lists) and any smoothing kernel width *)
+Theorem C20_pdf_total : forall ea ep w ss, kernel_ok w -> (2 <= length ea)%nat -> (2 <= length ep)%nat ->
+  sumT ROps (pdf_of_samples ROps ea ep w false ss) = sumT ROps (map (weight_in ea ep) ss) /\
+  length (pdf_of_samples ROps ea ep w false ss) = (pred (length ea) * pred (length ep))%nat /\
+  (Forall (fun s => 0 <= snd s) ss -> Forall (fun v => 0 <= v) (pdf_of_samples ROps ea ep w false ss)).
+Proof. exact pdf_counts_total. Qed.
+Print Assumptions C20_pdf_total.
+
+(* ... and the samples in the grid are exactly the vectors of the hemisphere:
+   upper grid (polar edges 0 .. pi/2): non-zero and z >= 0; lower grid
+   (pi/2 .. pi): non-zero and z <= 0 (equatorial vectors in both); "non-zero"
+   is after the in-place snap of Vector3d.azimuth, see the snap-band finding *)
+Theorem C20_counted_vectors : forall ea ep x y z w,
+  (grid_ok ea ep 0 (PI / 2) ->
+   (cell ROps ea ep (angles ROps (x, y, z), w) <> None <-> 0 < nrm (snap x, snap y, z) /\ 0 <= z)) /\
+  (grid_ok ea ep (PI / 2) PI ->
+   (cell ROps ea ep (angles ROps (x, y, z), w) <> None <-> 0 < nrm (snap x, snap y, z) /\ z <= 0)).
+Proof. intros. split; [apply counted_upper | apply counted_lower]. Qed.
+Print Assumptions C20_counted_vectors.
+
+Example C20_grid_nonvacuous : grid_ok [0; 2 * PI] [0; PI / 2] 0 (PI / 2).
+Proof.
+  exists [2 * PI], [PI / 2]. pose proof PI_RGT_0.
+  repeat split; simpl; auto; lra.
+Qed.
+
+(* symmetry=None, mrd=True: the density averages to exactly 1 over all bins
+   whenever the total weight in the grid is not zero *)
+Theorem C20_pdf_mrd_mean : forall ea ep w ss, kernel_ok w -> (2 <= length ea)%nat -> (2 <= length ep)%nat ->
+  sumT ROps (map (weight_in ea ep) ss) <> 0 ->
+  let h := pdf_of_samples ROps ea ep w true ss in
+  mmean ROps (repeat true (length h)) h = 1.
+Proof. exact pdf_mrd_mean. Qed.
+Print Assumptions C20_pdf_mrd_mean.
+
+(* with a point group -- PARTIAL.  Full statement: for every point group G and
+   all vectors vs, vs' with vs'_i = g_i vs_i, g_i in G, not on sector boundaries:
+   pdf(vs', symmetry=G) = pdf(vs, symmetry=G).  Proved here: the folded density
+   depends on the vectors only through Vector3d.in_fundamental_sector, so it is
+   unchanged whenever the replacement vectors are folded to the same directions.
+   That in_fundamental_sector(g v) = in_fundamental_sector(v) is property C07(e)
+   (it FAILS for m11, 1m1, -4, -6m2 and rarely for 23, m-3, 432: known findings,
+   replayed on the implementation by the oracle for all 38 groups) *)
+Theorem C20_symmetry_invariance_partial :
+  forall (fs : vec3 (T:=R) -> vec3 (T:=R)) ea ep w cr cc idx mask domrd vs vs' ws,
+  Forall2 (fun v v' => fs v' = fs v) vs vs' ->
+  pdf_sym ROps fs ea ep w cr cc idx mask domrd vs' ws = pdf_sym ROps fs ea ep w cr cc idx mask domrd vs ws.
+Proof. exact pdf_sym_invariant. Qed.
+Print Assumptions C20_symmetry_invariance_partial.
